@@ -121,20 +121,20 @@ func runPrior(t *ot.Target, e *ot.Env, rcv interface{}, p priorOp) {
 
 // call is the context of one (scenario, operand kind).
 type call struct {
-	c      *engine.Chooser
-	e      *ot.Env
-	t      *ot.Target
-	row    *ot.Row
-	kind   *ot.Kind
-	name   string
-	refs   map[string]*obs
+	c        *engine.Chooser
+	e        *ot.Env
+	t        *ot.Target
+	row      *ot.Row
+	kind     *ot.Kind
+	name     string
+	refs     map[string]*obs
 	protoOut interface{}
 }
 
 // obs is what one execution showed.
 type obs struct {
-	skip     string      // the configuration does not exist
-	modified string      // path of the first changed word of a watched argument ("" = intact)
+	skip     string // the configuration does not exist
+	modified string // path of the first changed word of a watched argument ("" = intact)
 	err      error
 	pnc      interface{}
 	parts    []ot.Part
